@@ -297,15 +297,38 @@ func (i *interpreter) loadSymElem(p symElemPtr) value {
 	}
 	var runs []run
 	for k := 0; k < n; k++ {
-		v := toTerm(p.elems[k])
-		if !v.IsConst() {
+		var cv uint64
+		switch x := p.elems[k].(type) {
+		case int:
+			cv = uint64(x)
+		case int8:
+			cv = uint64(x)
+		case int16:
+			cv = uint64(x)
+		case int32:
+			cv = uint64(x)
+		case int64:
+			cv = uint64(x)
+		case uint:
+			cv = uint64(x)
+		case uint8:
+			cv = uint64(x)
+		case uint16:
+			cv = uint64(x)
+		case uint32:
+			cv = uint64(x)
+		case uint64:
+			cv = x
+		case uintptr:
+			cv = uint64(x)
+		default:
 			kk := i.path.concretize(p.idx)
 			return p.elems[kk]
 		}
-		if len(runs) > 0 && runs[len(runs)-1].v == v.Val {
+		if len(runs) > 0 && runs[len(runs)-1].v == cv {
 			runs[len(runs)-1].hi = k
 		} else {
-			runs = append(runs, run{k, k, v.Val})
+			runs = append(runs, run{k, k, cv})
 		}
 	}
 	if len(runs) > 160 {
